@@ -54,14 +54,23 @@ def build_lib(features=()):
             shutil.rmtree(stage, ignore_errors=True)
     finally:
         shutil.rmtree(tgt, ignore_errors=True)
-    # keep only a few libs
-    libs = sorted([d for d in os.listdir(facts.CACHE) if d.startswith("lib-")], key=lambda d: os.path.getmtime(os.path.join(facts.CACHE, d)))
+    # keep only a few libs (concurrent checks prune too: every step tolerates a vanished entry)
     import time as _time
 
-    for d in libs[:-40]:
-        # never remove what a concurrent check may still be compiling against
-        if _time.time() - os.path.getmtime(os.path.join(facts.CACHE, d)) > 1800:
-            shutil.rmtree(os.path.join(facts.CACHE, d), ignore_errors=True)
+    def _mt(d):
+        try:
+            return os.path.getmtime(os.path.join(facts.CACHE, d))
+        except OSError:
+            return _time.time()
+
+    try:
+        libs = sorted([d for d in os.listdir(facts.CACHE) if d.startswith("lib-") and not d.endswith(".stage")], key=_mt)
+        for d in libs[:-40]:
+            # never remove what a concurrent check may still be compiling against
+            if _time.time() - _mt(d) > 1800:
+                shutil.rmtree(os.path.join(facts.CACHE, d), ignore_errors=True)
+    except OSError:
+        pass
     return rlib, os.path.join(out, "deps")
 
 
